@@ -132,6 +132,56 @@ fn arb_race() -> BoxedStrategy<rh::History> {
         .boxed()
 }
 
+/// Relay scenarios on three replicas: the deletion (recycled, or already a tombstone) reaches the third
+/// replica only THROUGH an intermediate one (c -> b -> a), never directly, optionally with an edit of
+/// the entry on the far replica. Added after a seeded change (a received tombstone was not registered in
+/// the consumer's update vector, so it was never relayed) went unnoticed by two-party scenarios.
+fn arb_relay() -> BoxedStrategy<rh::History> {
+    use vf_world::ops::{AttrK, Ref};
+    let r = RECYCLEBIN_MAX_AGE as u32;
+    let target = prop_oneof![(0u8..2).prop_map(Ref::P), (0u8..2).prop_map(Ref::G)];
+    (
+        target,
+        proptest::sample::select(vec![0u32, 1, r + 1, 2 * r]),
+        any::<bool>(), // far replica edits the entry meanwhile
+        any::<bool>(), // intermediate pulls twice
+        proptest::bool::weighted(0.85),
+        proptest::sample::select(vec![[2u8, 1, 0], [0, 1, 2], [1, 2, 0], [2, 0, 1]]),
+    )
+        .prop_map(|(u, wait, far_edit, twice, synced, [c, b, a])| {
+            let mut steps: Vec<Step> = vec![
+                Step::Do { r: 0, op: Op::CreatePerson { i: 0, name: 0 } },
+                Step::Do { r: 0, op: Op::CreatePerson { i: 1, name: 1 } },
+                Step::Do { r: 0, op: Op::CreateGroup { i: 0, name: 4, members: vec![Ref::P(1)] } },
+                Step::Do { r: 0, op: Op::CreateGroup { i: 1, name: 5, members: vec![] } },
+                Step::Repl { from: 0, to: 1 },
+                Step::Repl { from: 0, to: 2 },
+                // every replica has written something, so all three appear in the update vectors
+                Step::Do { r: 1, op: Op::SetAttr { t: Ref::P(1), attr: AttrK::Description, vals: vec![0] } },
+                Step::Do { r: 2, op: Op::SetAttr { t: Ref::P(1), attr: AttrK::LegalName, vals: vec![1] } },
+                Step::Repl { from: 1, to: 0 },
+                Step::Repl { from: 2, to: 0 },
+                Step::Repl { from: 0, to: 1 },
+                Step::Repl { from: 0, to: 2 },
+            ];
+            steps.push(Step::Do { r: c, op: Op::Delete { t: u } });
+            if wait > 0 {
+                steps.push(Step::Do { r: c, op: Op::Advance { secs: wait } });
+                steps.push(Step::Do { r: c, op: Op::PurgeRecycled });
+            }
+            if far_edit {
+                steps.push(Step::Do { r: a, op: Op::SetAttr { t: u, attr: AttrK::Description, vals: vec![2] } });
+            }
+            steps.push(Step::Repl { from: c, to: b });
+            if twice {
+                steps.push(Step::Repl { from: c, to: b });
+            }
+            steps.push(Step::Repl { from: b, to: a });
+            rh::History { replicas: 3, synced, steps }
+        })
+        .boxed()
+}
+
 // ---------------------------------------------------------------------------------------------
 // independent range model (decision table written from the property text of C09/C10)
 
@@ -591,6 +641,8 @@ fn main() {
     cx.prop("histories", PropCfg::new(n).shrink(250), || arb_case(len.clone()), srv::runtime, |rt, c| rt.block_on(run(c)));
     let n2 = cx.tier.pick(160, 4_000);
     cx.prop("tombstone-race", PropCfg::new(n2).shrink(250), arb_race, srv::runtime, |rt, c| rt.block_on(run(c)));
+    let n3 = cx.tier.pick(100, 2_500);
+    cx.prop("tombstone-relay", PropCfg::new(n3).shrink(250), arb_relay, srv::runtime, |rt, c| rt.block_on(run(c)));
     gx::fail_on_harness_errors(&cx);
     cx.require_class("delete-concurrent-with-edit", 30);
     cx.require_class("model:refresh-required", 12);
